@@ -2,7 +2,7 @@
    Statements only; proofs are in Proofs/CatProofs.v and Proofs/TokProofs.v. *)
 From Coq Require Import List NArith ZArith Bool Permutation.
 From TexModel Require Import Base Tables Chars Tokenizer.
-From TexProofs Require Import CatProofs TokProofs.
+From TexProofs Require Import CatProofs TokProofs IgnoredChars.
 Import ListNotations.
 
 (* every code point is in at most one category table (so "its" category is
@@ -53,6 +53,20 @@ Theorem C19_concat_exact :
     concat (map ttext toks) = s.
 Proof. exact tokens_concat_exact. Qed.
 Print Assumptions C19_concat_exact.
+
+(* "dropping only NUL/DEL": with the tables of the current source the code
+   points whose category the tokenizer skips (droppable n := the category of n
+   is in Tables.ignore_cats) are exactly 0 and 127, and on a categorised string
+   the skipped characters (ign) are the droppable ones *)
+Theorem C19_only_nul_del_droppable :
+  forall n : N, droppable n = true <-> n = 0%N \/ n = 127%N.
+Proof. exact droppable_iff. Qed.
+Print Assumptions C19_only_nul_del_droppable.
+
+Theorem C19_ignored_is_droppable :
+  forall (s : str) c, In c (categorize s) -> ign c = droppable (ch c).
+Proof. exact ign_categorized. Qed.
+Print Assumptions C19_ignored_is_droppable.
 
 (* every token's text is the slice of the input at its recorded offset *)
 Theorem C19_token_offsets :
